@@ -5,6 +5,7 @@ usage:  python -m pbt.runner <ID> <quick|thorough>
         python -m pbt.runner <ID> --shard <i> --tier <tier> --out <file>     (internal)
 exit 0 held / 1 VIOLATION / 2 harness error or inconclusive
 """
+import gc
 import importlib
 import json
 import os
@@ -61,9 +62,13 @@ def load_property(pid):
     return mod.PROP
 
 
-def execute(facet, case):
+def execute(facet, case, _second=False):
     """run one case under watchdog + quiet stdout; returns info dict; raises Violation/Inconclusive"""
     t0 = time.process_time()
+    # the watchdog counts the CPU time of the case, not of a full garbage collection of this long-lived shard process that
+    # happens to start inside it (seconds in thorough runs on a loaded machine): collections wait until the case is over
+    gc_was = gc.isenabled()
+    gc.disable()
     try:
         with quiet(), WATCHDOG.guard(common.WATCHDOG_SECONDS):
             info = facet.run(case)
@@ -78,16 +83,30 @@ def execute(facet, case):
         raise Violation("unexpected_behaviour", f"{type(e).__name__}({e}) while judging the case (innermost frame {where})",
                         f"unexpected/{type(e).__name__}@{where}")
     except WatchdogTrip:
+        if not _second:
+            # a spin is deterministic and trips again; a pause of the interpreter or the machine does not
+            if gc_was:
+                gc.enable()
+            gc.collect()
+            return execute(facet, case, _second=True)
         raise Violation("nontermination", "CPU watchdog: an element spun >= %gs inside one case without "
-                        "finishing (simulation can never run out of events)" % common.WATCHDOG_SECONDS,
+                        "finishing, twice (simulation can never run out of events)" % common.WATCHDOG_SECONDS,
                         "nontermination/watchdog")
     finally:
         tripped = WATCHDOG.tripped
+        if gc_was:
+            gc.enable()
     if tripped:
-        raise Violation("nontermination", "CPU watchdog tripped (swallowed inside the code under test)",
+        if not _second:
+            gc.collect()
+            return execute(facet, case, _second=True)
+        raise Violation("nontermination", "CPU watchdog tripped (swallowed inside the code under test), twice",
                         "nontermination/watchdog")
     info = info or {}
     info["cpu"] = time.process_time() - t0
+    if info["cpu"] > 1.0 and os.environ.get("VERIF_SLOWLOG"):
+        with open(os.environ["VERIF_SLOWLOG"], "a") as f:
+            f.write(json.dumps({"facet": facet.name, "cpu": info["cpu"], "case": case}, default=common.jdefault) + "\n")
     return info
 
 
